@@ -41,16 +41,37 @@ FEATURE_SETS = {
 }
 
 
+def harness_dir():
+    """The harness crate.  Development aid: with VERIF_REPO=<checkout> a scratch copy of the crate
+    is used whose path dependency points at that checkout instead of /repo (so that seeded
+    changes can be tried in a scratch worktree while /repo stays untouched)."""
+    alt = os.environ.get("VERIF_REPO")
+    if not alt:
+        return HARNESS
+    tag = hashlib.sha1(alt.encode()).hexdigest()[:10]
+    d = os.path.join("/tmp", "verif-harness-" + tag)
+    os.makedirs(os.path.join(d, ".cargo"), exist_ok=True)
+    toml = open(os.path.join(HARNESS, "Cargo.toml")).read().replace('path = "/repo/purl"', 'path = "%s/purl"' % alt)
+    open(os.path.join(d, "Cargo.toml"), "w").write(toml)
+    shutil.copy2(os.path.join(HARNESS, "Cargo.lock"), os.path.join(d, "Cargo.lock"))
+    shutil.copy2(os.path.join(HARNESS, ".cargo", "config.toml"), os.path.join(d, ".cargo", "config.toml"))
+    if os.path.isdir(os.path.join(d, "src")):
+        shutil.rmtree(os.path.join(d, "src"))
+    shutil.copytree(os.path.join(HARNESS, "src"), os.path.join(d, "src"))
+    return d
+
+
 def build_harness(fset="full"):
     """cargo build of the harness against /repo's working tree; returns the binary path."""
     feats = FEATURE_SETS[fset]
-    tdir = os.path.join(HARNESS, "target")
-    cmd = ["cargo", "build", "--release", "--offline", "--quiet", "--no-default-features",
-           "--features", ",".join(feats)] if feats else \
-          ["cargo", "build", "--release", "--offline", "--quiet", "--no-default-features"]
+    hdir = harness_dir()
+    tdir = os.path.join(hdir, "target")
+    cmd = ["cargo", "build", "--release", "--offline", "--quiet", "--no-default-features"]
+    if feats:
+        cmd += ["--features", ",".join(feats)]
     env = dict(os.environ, CARGO_NET_OFFLINE="true", CARGO_TARGET_DIR=tdir)
     t0 = time.time()
-    p = subprocess.run(cmd, cwd=HARNESS, env=env, stdout=subprocess.PIPE, stderr=subprocess.STDOUT, text=True)
+    p = subprocess.run(cmd, cwd=hdir, env=env, stdout=subprocess.PIPE, stderr=subprocess.STDOUT, text=True)
     if p.returncode != 0:
         raise ToolError("harness build failed (%s):\n%s" % (fset, p.stdout[-4000:]))
     src = os.path.join(tdir, "release", "purl-conform")
